@@ -299,6 +299,7 @@ def run_am(ctx, case):
     cg = ms.get_clebsch_gordan_coeffient(a, b)
     js = [x[0] for x in cg]
     ctx.require(js == list(range(abs(a - b), a + b + 1, 2)), 'total spins |j1-j2|..j1+j2')
+    ctx.require(all(np.shape(c) == (j + 1, a + 1, b + 1) for j, c in cg), 'every Clebsch-Gordan block has the layout (2j+1, 2j1+1, 2j2+1)', f'{[np.shape(c) for _, c in cg]} for j1={a}/2 j2={b}/2')
     C = np.concatenate([c.reshape(j + 1, (a + 1) * (b + 1)) for j, c in cg], axis=0)
     ctx.require(C.shape == ((a + 1) * (b + 1), (a + 1) * (b + 1)), 'CG table is square')
     ctx.close(C @ C.T, np.eye(C.shape[0]), 1e-10, 'Clebsch-Gordan blocks form an orthogonal matrix')
